@@ -15,6 +15,8 @@ Three independent generators, all driven by vlib.core.SplitMix64:
                   substituting the winning definitions itself.
 """
 
+import re
+
 LET = "abcdefgh"
 
 
@@ -567,6 +569,25 @@ L0 = ["a", "b", "c", "d", "e"]            # number-valued fields of the top-leve
 REC0 = ["m", "n"]                         # record-valued fields of the top-level records
 L1 = ["p", "q", "r"]                      # (number-valued) fields of nested records
 DYN = {"z": "dn0", "y": "dn1"}            # dynamically named fields and the let that holds their name
+B0, B1, S0, S1 = "\x01", "\x02", "\x03", "\x04"
+
+
+def render(text, binders, mode):
+    """Replace the binder markers.  mode "written": every binder has its written name (the name of a
+    field, mostly) and record patterns use the shorthand `{a}`; "renamed": every binder is renamed
+    apart (bv<id>, `{a = bv<id>}`); "guards-renamed": only the pattern variables of guarded match arms."""
+    def ren(k):
+        return mode == "renamed" or (mode == "guards-renamed" and binders[k][1] == "guard")
+
+    def occ(m):
+        k = int(m.group(1))
+        return "bv%d" % k if ren(k) else binders[k][0]
+
+    def short(m):
+        k = int(m.group(1))
+        return "%s = bv%d" % (binders[k][0], k) if ren(k) else binders[k][0]
+    text = re.sub(B0 + r"(\d+)" + B1, occ, text)
+    return re.sub(S0 + r"(\d+)" + S1, short, text)
 ORDER = {n: i for i, n in enumerate(["a", "b", "m", "c", "d", "n", "e", "z", "y", "w"])}
 PRIOS = [("n", 6), ("b", 4), ("t", 2), (("p", 1), 2), (("p", 0), 1), (("p", -1), 1)]
 # the base record mostly gives defaults, later operands mostly override with growing priorities
@@ -594,13 +615,39 @@ class OvGen:
     records), in every operand, so that merged records are acyclic except for one reference in 25;
     names are typed (a..e, z, y, w numbers; m, n records with number fields p, q, r)."""
 
-    def __init__(self, rng):
+    def __init__(self, rng, focus=False):
         self.r = rng
         self.features = set()
         self.operand = 0
+        # focus: the sub-stream around binders that collide with field names (every binder form x
+        # every kind of field, small overriding operands)
+        self.focus = focus
+        self.binders = {}          # binder id -> (name as written, "guard" | "other")
+        self.recent = []           # the fields referenced so far by the definition being generated
 
     def feat(self, f):
         self.features.add(f)
+
+    def binder(self, cands, taken=(), kind="other"):
+        """A fresh local binder (let / fun / pattern variable).  Its occurrences are printed as markers:
+        the programs `as written` give it the name of a visible field (2 in 3; preferably one the same
+        definition has already referred to), the reference program (the substituted record) renames
+        every binder apart, so that no binder can capture a field there.
+        Returns (id, written name, occurrence marker)."""
+        r = self.r
+        nums = [n for n in cands if n not in REC0 and n not in taken]
+        hot = [n for n in self.recent if n in nums]
+        if hot and r.chance(3, 4 if self.focus else 2):
+            w = r.choice(hot)
+        elif nums and r.chance(2, 3):
+            w = r.choice(nums)
+        else:
+            w = "v" if "v" not in taken else "vv" if "vv" not in taken else "vvv"
+        k = len(self.binders) + 1
+        self.binders[k] = (w, kind)
+        if w not in ("v", "vv", "vvv"):
+            self.feat("binder-named-like-a-field")
+        return k, w, "%s%d%s" % (B0, k, B1)
 
     def prio(self):
         return self.r.weighted(PRIOS_BY_OPERAND[min(self.operand, 3)] if self.r.chance(5, 6) else PRIOS)
@@ -619,6 +666,7 @@ class OvGen:
             if x in REC0:
                 self.feat("ref-into-nested")
                 return "%s.%s" % (x, r.weighted([("p", 5), ("q", 1), ("r", 1)]))
+            self.recent.append(x)
             return x
         if outer and c < 9:
             x = r.choice(outer)
@@ -626,6 +674,7 @@ class OvGen:
                 self.feat("ref-into-nested")
                 return "%s.%s" % (x, r.weighted([("p", 5), ("q", 1), ("r", 1)]))
             self.feat("outer-field-ref")
+            self.recent.append(x)
             return x
         if c == 9:
             return r.choice(["u0", "u1"])
@@ -636,7 +685,9 @@ class OvGen:
         x = lambda: self.ref(sib, outer)
         if d <= 0:
             return x()
-        c = r.below(15)
+        c = r.below(18)
+        if self.focus and r.chance(1, 2):
+            c = r.choice([10, 15, 17, 17])
         e = lambda: self.expr(sib, outer, d - 1)
         if c < 2:
             return x()
@@ -662,23 +713,10 @@ class OvGen:
         if c == 9:
             self.feat("let")
             return "(let v = %s in v * %s)" % (e(), x())
-        if c == 10:
-            # a local binder that shadows a field name: the analysis must not take it as a dependency
-            self.feat("shadowing-let")
-            nums = [n for n in sib if n not in REC0]
-            n = r.choice(nums) if nums else "v"
-            return "(let %s = %s in %s + %s)" % (n, self.num(), n, x())
-        if c == 11 and r.chance(1, 2):
-            # binders that rebind the name of a sibling while using the sibling: the sibling IS a
-            # dependency (the bound expression / the argument is outside the scope of the binder)
-            nums = [n for n in sib if n not in REC0]
-            if nums:
-                self.feat("rebinding-binder")
-                n = r.choice(nums)
-                return r.choice(["(let %s = %s + 1 in %s * 2)" % (n, n, n),
-                                 "((fun %s => %s + %s) %s)" % (n, n, self.num(), n),
-                                 "(%s |> match { %s => %s + 1 })" % (n, n, n),
-                                 "(let %s = %s, v = %s in v + %s)" % (n, self.num(), n, n)])
+        if c == 10 or c in (15, 16) or (c == 11 and r.chance(1, 2)):
+            return self.binder_expr(sib, outer, d)
+        if c == 17 or (c == 12 and r.chance(1, 2)):
+            return self.guarded_match(sib, outer, d)
         if c == 11:
             self.feat("inline-record")
             return "({p = %s, q = p + %s}.q)" % (e(), x())
@@ -690,6 +728,104 @@ class OvGen:
             return "(%s | std.contract.from_predicate (fun v => v + 1000 >= %s))" % (e(), x())
         self.feat("function")
         return "(let g = fun v w => v + w * %s in g %s %s)" % (x(), e(), x())
+
+    def binder_expr(self, sib, outer, d):
+        """every binder form of the language around a body; the binder may be named like a visible
+        field.  What is written outside the scope of the binder (bound expression of a plain let,
+        argument, scrutinee) may mention that field; what is inside may not (there the name is the
+        binder), so that the program as written and the program with binders renamed apart mean the same."""
+        r = self.r
+        cands = [n for n in sib + outer if n not in REC0]
+        e = lambda: self.expr(sib, outer, d - 1)                 # outside the scope
+        k, w, b = self.binder(cands)
+        s2, o2 = [n for n in sib if n != w], [n for n in outer if n != w]
+        ei = lambda: self.expr(s2, o2, d - 1)                    # inside the scope of b
+        form = r.below(12)
+        self.feat("binder:" + ["let", "let-rec", "let-multi", "fun", "fun", "fun-curried", "let-record-pattern",
+                               "fun-record-pattern", "fun-array-pattern", "match-any", "let-array-pattern", "let-enum-pattern"][form])
+        if form == 0:
+            return "(let %s = %s in %s + %s)" % (b, e(), b, ei())
+        if form == 1:
+            return "(let rec %s = %s in %s * 2 - %s)" % (b, ei(), b, ei())
+        if form == 2:
+            k2, w2, b2 = self.binder(cands, taken=[w])
+            s3, o3 = [n for n in s2 if n != w2], [n for n in o2 if n != w2]
+            return "(let %s = %s, %s = %s in %s + %s - %s)" % (b, self.num(), b2, e(), b2, b, self.expr(s3, o3, d - 1))
+        if form in (3, 4):
+            return "((fun %s => %s + %s) %s)" % (b, b, ei(), e())
+        if form == 5:
+            k2, w2, b2 = self.binder(cands, taken=[w])
+            s3, o3 = [n for n in s2 if n != w2], [n for n in o2 if n != w2]
+            return "((fun %s %s => %s * 2 + %s + %s) %s %s)" % (b, b2, b, b2, self.expr(s3, o3, d - 1), e(), e())
+        sh = "%s%d%s" % (S0, k, S1) if r.chance(1, 2) else "%s = %s" % (w, b)
+        # (the matched record literal is recursive: its field value is bound outside of it)
+        if form == 6:
+            return "(let sv%d = %s in let {%s} = {%s = sv%d} in %s + %s)" % (k, e(), sh, w, k, b, ei())
+        if form == 7:
+            return "(let sv%d = %s in (fun {%s, ..} => %s + %s) {%s = sv%d, other_ = 0})" % (k, e(), sh, b, ei(), w, k)
+        if form == 8:
+            return "((fun [%s, ..] => %s + %s) [%s, 0])" % (b, b, ei(), e())
+        if form == 9:
+            return "(%s |> match { %s => %s + %s })" % (e(), b, b, ei())
+        if form == 10:
+            return "(let [_, %s] = [0, %s] in %s + %s)" % (b, e(), b, ei())
+        return "(let 'T %s = 'T %s in %s + %s)" % (b, e(), b, ei())
+
+    def guarded_match(self, sib, outer, d):
+        """a match with 1-3 arms that bind pattern variables (possibly named like visible fields) and
+        carry guards, and a default arm; the guards and bodies of LATER arms are outside the scope of
+        the earlier arms' variables, so there a name means the field"""
+        r = self.r
+        self.feat("guarded-match")
+        cands = [n for n in sib + outer if n not in REC0]
+        e = lambda: self.expr(sib, outer, d - 1)
+        shape = r.choice(["any", "rec", "rec", "arr", "enum"])
+        narms = r.weighted([(1, 3), (2, 3), (3, 1)])
+        arms, fieldnames, first = [], [], None
+        for i in range(narms):
+            k, w, b = self.binder(cands, kind="guard")
+            if first is None:
+                first = w
+            s2, o2 = [n for n in sib if n != w], [n for n in outer if n != w]
+            if shape == "any":
+                pat = b
+            elif shape == "rec":
+                pat = "{%s%s}" % ("%s%d%s" % (S0, k, S1) if r.chance(1, 2) else "%s = %s" % (w, b), ", .." )
+                fieldnames.append(w)
+            elif shape == "arr":
+                pat = r.choice(["[%s, ..]" % b, "[_, %s]" % b])
+            else:
+                pat = "'%s %s" % (r.choice(["T", "T", "U"]), b)
+            guard = ""
+            if r.chance(4, 5):
+                guard = " if " + r.choice(["%s > %s" % (b, self.num()), "%s <= %s" % (b, self.ref(s2, o2)),
+                                           "%s + %s == %s" % (b, self.ref(s2, o2), self.num()),
+                                           "%s <= %s" % (self.ref(s2, o2), self.num())])
+            body = r.choice(["%s + %s" % (b, self.expr(s2, o2, d - 1)), self.expr(s2, o2, d - 1), "%s * 2" % b])
+            arms.append("%s%s => %s" % (pat, guard, body))
+        # the default arm mentions the field the first arm's variable is named after (1 in 2)
+        if first in sib + outer and r.chance(1, 2):
+            self.feat("default-arm-mentions-the-field-an-earlier-arm-rebinds")
+            default = "(%s + %s)" % (first, self.num())
+        else:
+            default = e()
+        arms.append("_ => %s" % default)
+        if shape == "any":
+            scrut = e()
+        elif shape == "rec":
+            names = []
+            for n in fieldnames:
+                if n not in names:
+                    names.append(n)
+            # (a record literal is recursive: the field values are bound outside of it)
+            k0 = len(self.binders)
+            scrut = "(%s{%s})" % ("".join("let sv%d_%d = %s in " % (k0, i, e()) for i in range(len(names))),
+                                  ", ".join("%s = sv%d_%d" % (n, k0, i) for i, n in enumerate(names)))
+        elif shape == "arr":
+            scrut = "[%s, %s]" % (e(), e())
+        else:
+            scrut = "('T %s)" % e()
+        return "(%s |> match { %s })" % (scrut, ", ".join(arms))
 
     def ctrs(self, sib, outer):
         r = self.r
@@ -726,6 +862,12 @@ class OvGen:
                 f["val"] = ("e", self.expr(sib, outer, r.range(0, 2)))
             f["ctrs"] = self.ctrs(sib, outer)
             fields.append(f)
+        if r.chance(1, 4 if self.focus else 10):
+            # a dynamically named field of a nested record that depends on its siblings / the enclosing record
+            self.feat("dynamic-nested")
+            dn = r.choice(sorted(DYN))
+            fields.append({"name": dn, "kind": "dyn", "prio": self.prio(), "ctrs": [],
+                           "val": ("e", self.expr(list(chosen), outer, r.range(0, 2))), "piece": False})
         return fields
 
     def record(self, allow_special=True):
@@ -740,15 +882,21 @@ class OvGen:
         for n in chosen:
             f = {"name": n, "kind": "stat", "prio": self.prio(), "ctrs": [], "val": None, "piece": False}
             sib = self.visible(n, [x for x in chosen if x != n])
+            self.recent = []
             if n in REC0:
                 self.feat("nested")
-                if r.chance(1, 3):
+                if r.chance(1, 2 if self.focus else 3):
                     # piecewise definition `n.p = e`: the inner level is not a recursive record there,
                     # so [e] refers to fields of the enclosing record only
                     # (the annotations written after the path belong to the last field of the path)
                     self.feat("piecewise")
-                    inner = [{"name": r.weighted([("p", 4), ("q", 1), ("r", 1)]), "kind": "stat", "prio": self.prio(), "ctrs": [], "piece": False,
-                              "val": ("e", self.expr([], sib, r.range(0, 2)))}]
+                    # one or two pieces `n.p = e1, n.q = e2`, written in this order
+                    first = r.weighted([("p", 4), ("q", 1), ("r", 1)])
+                    pieces = [first] + ([r.choice([x for x in L1 if x != first])] if r.chance(1, 2) else [])
+                    if len(pieces) == 2:
+                        self.feat("piecewise-two-pieces")
+                    inner = [{"name": nm, "kind": "stat", "prio": self.prio(), "ctrs": [], "piece": False,
+                              "val": ("e", self.expr([], sib, r.range(0, 2)))} for nm in pieces]
                     f["piece"] = True
                     f["prio"] = "n"
                 else:
@@ -761,8 +909,9 @@ class OvGen:
                 f["val"] = ("e", self.expr(sib, [], r.range(0, 2)))
                 f["ctrs"] = self.ctrs(sib, [])
             fields.append(f)
+        self.recent = []
         if allow_special:
-            if r.chance(1, 4):
+            if r.chance(1, 2 if self.focus else 4):
                 self.feat("dynamic")
                 dn = r.choice(sorted(DYN))
                 fields.append({"name": dn, "kind": "dyn", "prio": self.prio(), "ctrs": [],
@@ -795,8 +944,7 @@ def ov_field_text(f, as_written):
     if f["val"][0] == "e":
         return "%s%s = %s" % (name, meta, f["val"][1])
     if as_written and f["piece"]:
-        inner = f["val"][1][0]
-        return "%s.%s%s = %s" % (name, inner["name"], ov_prio(inner["prio"]), inner["val"][1])
+        return ", ".join("%s.%s%s = %s" % (name, inner["name"], ov_prio(inner["prio"]), inner["val"][1]) for inner in f["val"][1])
     return "%s%s = %s" % (name, meta, ov_record_text(f["val"][1], as_written))
 
 
@@ -866,9 +1014,12 @@ def ov_leaf_paths(fields, prefix=""):
 SHAPES = ["chain", "right", "let-m", "m-twice", "diamond", "m&m", "force-first"]
 
 
-def gen_override(rng):
+def gen_override(rng, focus=None):
     """returns a dict with the operand records, the merge shape and every program text"""
-    g = OvGen(rng)
+    focus = rng.chance(1, 3) if focus is None else focus
+    g = OvGen(rng, focus=focus)
+    if focus:
+        g.feat("focus:binders-colliding-with-fields")
     nops = rng.weighted([(1, 4), (2, 4), (3, 2)])
     R = g.record()
     Ps = []
@@ -915,14 +1066,51 @@ def gen_override(rng):
         for o in ops[1:]:
             m = ov_merge(m, o)
         merged = ov_merge(m, m)
+    # the programs as written give local binders the names of fields; the reference (substituted)
+    # program renames every binder apart
+    lets = render(lets, g.binders, "written")
+    subst_raw = PRELUDE + ov_record_text(merged, as_written=False)
     progs = {
         "merged": PRELUDE + lets + expr,
-        "subst": PRELUDE + ov_record_text(merged, as_written=False),
+        "subst": render(subst_raw, g.binders, "renamed"),
     }
     for n, o in zip(names, ops):
-        progs["alone:" + n] = PRELUDE + ov_record_text(o)
+        progs["alone:" + n] = PRELUDE + render(ov_record_text(o), g.binders, "written")
+    # for the classification of a difference: the substituted record with the binders as written /
+    # with only the pattern variables of guarded match arms renamed
+    variants = {"subst-as-written": render(subst_raw, g.binders, "written"),
+                "subst-guards-renamed": render(subst_raw, g.binders, "guards-renamed")}
+    # the operand records once more with binders renamed apart (same dependency tables expected)
+    renamed_ops = {n: PRELUDE + render(ov_record_text(o), g.binders, "renamed") for n, o in zip(names, ops)}
+    guards_ops = {n: PRELUDE + render(ov_record_text(o), g.binders, "guards-renamed") for n, o in zip(names, ops)}
     return {"shape": shape, "nops": nops, "features": sorted(g.features), "progs": progs,
-            "lets": PRELUDE + lets, "expr": expr, "names": names, "paths": ov_leaf_paths(merged)}
+            "lets": PRELUDE + lets, "expr": expr, "names": names, "paths": ov_leaf_paths(merged),
+            "variants": variants, "renamed_operands": renamed_ops, "guards_renamed_operands": guards_ops, "operands": ops,
+            "binders": {str(k): v for k, v in g.binders.items()}}
+
+
+def synth_override(case, opi, x, value=1000):
+    """The override history that exposes a wrong dependency table (DESIGN 1.4): operand [opi] of a
+    generated case merged with a record that overrides exactly the field [x] (a top-level field, or
+    a field of the nested records), against the substituted record with binders renamed apart."""
+    op = case["operands"][opi]
+    binders = {int(k): tuple(v) for k, v in case["binders"].items()}
+    fx = {"name": x, "kind": "stat", "prio": "t", "ctrs": [], "val": ("e", str(value)), "piece": False}
+    if x in L1:
+        over = [{"name": f["name"], "kind": "stat", "prio": "n", "ctrs": [], "val": ("r", [fx]), "piece": False}
+                for f in op if f["val"] is not None and f["val"][0] == "r"]
+        if not over:
+            return None
+    else:
+        over = [fx]
+    merged = ov_merge(op, over)
+    progs = {"merged": PRELUDE + "(%s) & %s" % (render(ov_record_text(op), binders, "written"), ov_record_text(over)),
+             "subst": PRELUDE + render(ov_record_text(merged, as_written=False), binders, "renamed")}
+    raw = PRELUDE + ov_record_text(merged, as_written=False)
+    return {"shape": "deps-table", "nops": 1, "features": ["synthesised-from-a-dependency-table"], "progs": progs, "lets": None,
+            "paths": ov_leaf_paths(merged), "overridden": x,
+            "variants": {"subst-as-written": render(raw, binders, "written"),
+                         "subst-guards-renamed": render(raw, binders, "guards-renamed")}}
 
 
 def operands_after(case, ok_names):
